@@ -224,12 +224,21 @@ def run_const_api(env, chk, case, units):
     hist = {}
     for r in rows:
         hist.setdefault(r[0], []).append((r[1], r[2]))
-    for pt in case.get("pts", PTS):
+    # one model object for the whole case when `reuse` is set: successive personalisations of tables with the same feature
+    # names in different column orders must each follow their own table
+    reuse = bool(case.get("reuse"))
+    shared_model = env["model_factory"]("constant") if reuse else None
+    for k_pt, pt in enumerate(case.get("pts", PTS)):
         focus = dict(case, pts=[pt])
+        cols = list(feats)
+        if reuse and nf >= 2 and k_pt % 2 == 1:
+            cols = cols[1:] + cols[:1]          # same features, rotated column order
+            focus["column_order"] = cols
         try:
             with core.quiet():
-                data = env["Data"].from_dataframe(df) if drop else env["Data"].from_dataframe(df, drop_full_nan=False)
-                model = env["model_factory"]("constant")
+                dfp = df[["ID", "TIME"] + cols]
+                data = env["Data"].from_dataframe(dfp) if drop else env["Data"].from_dataframe(dfp, drop_full_nan=False)
+                model = shared_model if reuse else env["model_factory"]("constant")
                 ip = model.personalize(data, "constant_prediction", prediction_type=pt)
                 ids = list(ip._indices)
                 query = {i: case["query"][i] for i in ids if i in case["query"]}
@@ -238,8 +247,12 @@ def run_const_api(env, chk, case, units):
         except Exception as e:  # noqa
             chk.impl_failure(focus, f"valid cohort aborted in personalize/estimate ({pt}): {err_class(env, e)}: {e}")
             continue
-        if model_feats != feats:
-            chk.impl_failure(focus, f"model features {model_feats} != data features {feats}")
+        if model_feats != cols:
+            chk.impl_failure(focus, f"model features {model_feats} != data features {cols}")
+        if cols != feats and sorted(model_feats) == sorted(feats):
+            # bring the estimates back to the canonical feature order F0, F1, …
+            perm = [model_feats.index(f) for f in feats]
+            est = {i: [[row[j] for j in perm] for row in rows_] for i, rows_ in est.items()}
         for ind, h in hist.items():
             seen = [(a, v) for a, v in h if (not drop) or any(x is not None for x in v)]
             fcase = dict(focus, individual=ind)
@@ -836,7 +849,7 @@ def gen_const_api(rng, idx):
     if not any(v is not None for r in rows for v in r[2]):
         rows[0][2][0] = 1.5
     rng.shuffle(rows)
-    return {"kind": "const-api", "nf": nf, "drop_full_nan": drop, "rows": rows, "query": query}
+    return {"kind": "const-api", "nf": nf, "drop_full_nan": drop, "rows": rows, "query": query, "reuse": rng.random() < 0.5}
 
 
 def gen_const_algo(rng, idx):
